@@ -5,10 +5,11 @@ reason recorded in manifest.d/_unclaimed.json."""
 import json, os, glob
 V = os.path.dirname(os.path.dirname(os.path.abspath(__file__)))
 props = [json.loads(l)['id'] for l in open(os.path.join(V, 'properties.jsonl'))]
+integrated = set(open(os.path.join(V, 'manifest.d', '_integrated.txt')).read().split())
 checks = []
 for p in props:
     fn = os.path.join(V, 'manifest.d', p + '.json')
-    if os.path.exists(fn):
+    if os.path.exists(fn) and p in integrated:
         c = json.load(open(fn))
         c.setdefault('property_id', p)
         c.setdefault('quick_cmd', f'./check {p} --tier quick')
@@ -36,7 +37,8 @@ man = dict(
 json.dump(man, open(os.path.join(V, 'MANIFEST.json'), 'w'), indent=1)
 kf = []
 for fn in sorted(glob.glob(os.path.join(V, 'known_findings.d', 'C*.json'))):
-    kf += json.load(open(fn))
+    if os.path.basename(fn)[:-5] in integrated:
+        kf += json.load(open(fn))
 json.dump(dict(comment='Read-only at run time. status=open entries suppress exactly the failures whose minimised '
                        'signature matches; status=fixed entries suppress nothing.', findings=kf),
           open(os.path.join(V, 'known_findings.json'), 'w'), indent=1)
